@@ -1,0 +1,10 @@
+//go:build verif
+
+package ssh
+
+import "github.com/go-git/go-git/v6/plumbing/transport"
+
+// BuildCommandForVerif exposes the remote command line for verification.
+func BuildCommandForVerif(req *transport.Request) string {
+	return buildCommand(req)
+}
